@@ -40,11 +40,12 @@ import (
 type Fate int
 
 const (
-	FOK    Fate = iota // answered at once with a rows result carrying the token
-	FErr               // answered at once with an ERROR frame carrying the token
-	FHeld              // held, released (in the history's order) while the caller still waits
-	FLate              // held, released after the caller has given up
-	FNever             // never answered
+	FOK       Fate = iota // answered at once with a rows result carrying the token
+	FErr                  // answered at once with an ERROR frame carrying the token
+	FHeld                 // held, released (in the history's order) while the caller still waits
+	FLate                 // held, released after the caller has given up
+	FNever                // never answered
+	FWrongVer             // answered at once, but the frame header carries another (valid) protocol version
 )
 
 type CMode int
@@ -105,7 +106,11 @@ type Hist struct {
 	Victim   int
 	// gocql.TimeoutLimit for this history (set by RunAll around the group; the node stays silent)
 	TimeoutLimit int
-	WatchdogMs   int  // caller / close watchdog (default 20000)
+	WatchdogMs   int // caller / close watchdog (default 20000)
+	// the node answers the heartbeat's OPTIONS on the pool connection with an ERROR frame while token requests
+	// are held for HoldMs (> 1000: at least one heartbeat falls into the hold)
+	HeartbeatErr bool
+	HoldMs       int
 	PushEvents   bool // the node pushes EVENT frames (stream -1) on the pool connection while requests are outstanding
 	IdleMs       int  // stay idle this long before quiescence (> 1000: the heartbeat's OPTIONS exec appears in the logs)
 	Handshake    int  // 0: normal; 1: node never answers STARTUP; 2: node closes during the handshake; 3: cut mid-header of SUPPORTED
@@ -220,7 +225,7 @@ func numOf(s, own string) int {
 
 // ClassCode is the number of an outcome class in C01/Corr.v (result).
 var ClassCode = map[string]int{"ok": 0, "errframe": 1, "timeout": 2, "ctx": 3, "connclosed": 4, "nostreams": 5, "nohosts": 6,
-	"readerr": 7, "writeerr": 8, "other": 9, "ok-empty": 10}
+	"readerr": 7, "writeerr": 8, "other": 9, "ok-empty": 10, "protoerr": 11}
 
 func rowsFor(tok string) node.Rows {
 	return node.Rows{Keyspace: "ks", Table: "t", GlobalSpec: true,
@@ -239,9 +244,10 @@ type run struct {
 	lateSeq  []string                 // tokens in arrival order (FLate)
 	fates    map[string]Fate
 	fd       *faultDialer
-	silent   bool // the node no longer answers anything on the pool connection (TimeoutLimit histories)
-	heldDone bool // the held answers have been released: a held request arriving later is answered at once
-	lateDone bool // likewise for the late answers
+	poolSC   *node.ServerConn // the pool connection, once the session is up
+	silent   bool             // the node no longer answers anything on the pool connection (TimeoutLimit histories)
+	heldDone bool             // the held answers have been released: a held request arriving later is answered at once
+	lateDone bool             // likewise for the late answers
 }
 
 func (r *run) handler(c *node.ServerConn, req *node.Request) {
@@ -255,6 +261,16 @@ func (r *run) handler(c *node.ServerConn, req *node.Request) {
 		}
 		r.mu.Unlock()
 		return
+	}
+	if r.h.HeartbeatErr && req.Op() == node.OpOptions {
+		r.mu.Lock()
+		isPool := r.poolSC != nil && c == r.poolSC
+		r.mu.Unlock()
+		if isPool {
+			// the heartbeat's OPTIONS is answered with an ERROR frame: it belongs to the heartbeat alone
+			c.Reply(req, node.Error{Code: node.ErrOverloaded, Message: "heartbeat-marker: this error answers the OPTIONS ping"})
+			return
+		}
 	}
 	if req.Query == nil || !strings.HasPrefix(req.Query.Statement, stmtPrefix+"tok_") {
 		if r.h.Handshake == 1 && req.Startup != nil {
@@ -280,6 +296,10 @@ func (r *run) handler(c *node.ServerConn, req *node.Request) {
 		c.Reply(req, rowsFor(tok))
 	case FErr:
 		c.Reply(req, node.Error{Code: node.ErrInvalid, Message: tok})
+	case FWrongVer:
+		// same header size, other version: exec must refuse the frame and still give the stream id back
+		other := map[int]int{1: 2, 2: 1, 3: 4, 4: 3, 5: 4}[r.h.Proto]
+		c.Reply(req, node.Envelope{Msg: rowsFor(tok), Version: 0x80 | byte(other)})
 	case FHeld, FLate:
 		// the decision and the parking are one critical section with the scripted release
 		r.mu.Lock()
@@ -349,6 +369,8 @@ func classify(err error) string {
 	}
 	s := err.Error()
 	switch {
+	case strings.Contains(s, "unexpected protocol version in response"):
+		return "protoerr"
 	case strings.Contains(s, "unable to read frame body"):
 		return "readerr"
 	case strings.Contains(s, "injected"), strings.Contains(s, "i/o timeout"), strings.Contains(s, "closed pipe"), strings.Contains(s, "broken pipe"),
@@ -526,6 +548,9 @@ func Run(h *Hist) *Report {
 		return rep
 	}
 	pool := nd.Conns()[len(nd.Conns())-1]
+	r.mu.Lock()
+	r.poolSC = pool
+	r.mu.Unlock()
 	var poolConn *gocql.Conn
 	conns, isCtl := gocql.VerifConnList(s)
 	for i, c := range conns {
